@@ -43,6 +43,7 @@ LEVEL_TEXT = (
     "function attaches exactly the grid dataset's coordinates whose dimensions fit the result (hence the target position's coordinate, never one on the "
     "abandoned dimension) and drops non-dimension coordinates iff keep_coords is false; padding always works on coordinate-stripped data; on the cumsum path the array "
     "handed to _reattach_coords has the target dimension's name and carries no coordinate of the abandoned position (coordinates tracked through xarray's coordinate API). Coordinate values, attributes and the result's name are xarray's doing (not decided)."
+    " Also decided: the arrays handed to xarray.apply_ufunc are the caller's, carried by DataArray methods (necessary for keeping the name); a multi-axis operation hands keep_coords to every axis; only the constructor binds the grid's dataset."
 )
 LEVEL_NOTE = "Trusted: xarray coordinate API. The behavioural clauses on values/attrs/name are outside static reach."
 
